@@ -202,7 +202,7 @@ fn check(c: &Case, acc: &mut Acc) {
 }
 
 fn every_character() -> Acc {
-    speclib::report::par_cases(0x10000, |cp, acc| {
+    speclib::report::par_cases(0x110000, |cp, acc| {
         let c = match char::from_u32(cp as u32) {
             Some(c) if (c as u32) >= 0x80 && !c.is_control() && !c.is_whitespace() => c,
             _ => return,
